@@ -419,7 +419,7 @@ structure Special where
   d2 : Nat
   n1 : Option Num
   n2 : Option Num
-  deriving Repr
+  deriving Repr, DecidableEq
 
 def scanNum (ls : List String) : Option (Nat × Num) :=
   match scan ls 1 with
@@ -488,7 +488,7 @@ inductive Out where
   | one (labels : List String) (shape : List Nat)      -- nadded = 1, flat lists
   | many (cands : List (List String × List Nat))       -- lists of candidates (nadded = their number)
   | error                                              -- Python raises
-  deriving Repr
+  deriving Repr, DecidableEq
 
 def istr (k : Int) : String := toString k
 
@@ -599,6 +599,119 @@ def updateTree (L : List String) (S : List Nat) (tryIdx : Nat) (B : Basis) : Out
       | some 2 => (match sp.n2 with | some n => outOrd12 L S B 2 sp.i sp.d2 n | none => .error)
       | some 3 => outOrd3 L S B sp
       | _ => .error
+
+/-- l.683-978 for ONE candidate record: the selection of `n`/`d` by `exp_ord[labels[i]]` and the output splices.
+`updateTree L S k B` is `outOf` applied to the `k`-th record (`updateTree_candidate_local`). -/
+def outOf (L : List String) (S : List Nat) (B : Basis) (sp : Special) : Out :=
+  match expOrd (L.getD sp.i "") with
+  | some 1 => (match sp.n1 with | some n => outOrd12 L S B 1 sp.i sp.d1 n | none => .error)
+  | some 2 => (match sp.n2 with | some n => outOrd12 L S B 2 sp.i sp.d2 n | none => .error)
+  | some 3 => outOrd3 L S B sp
+  | _ => .error
+
+/-- selection of a candidate out of ANY candidate list (l.681-683: `if len(special_idx) > try_idx`) -/
+def selectOut (L : List String) (S : List Nat) (B : Basis) (sps : List Special) (k : Nat) : Out :=
+  match sps[k]? with
+  | none => .none
+  | some sp => outOf L S B sp
+
+/-! ### the candidate table AS THE PYTHON HAS IT: five parallel lists (l.601-675)
+
+`special_idx`, `diff1_idx`, `diff2_idx`, `num1`, `num2` are appended to / overwritten statement by statement;
+`try_idx` indexes all five.  `detectPar` mirrors those statements (including `if i not in special_idx`,
+`if len(diff2_idx) != len(special_idx)`, `diff2_idx[-1] = …`); `Props/C11c.lean` proves that the five lists are the
+columns of the record list `specials` (the alignment invariant) and that selecting row `k` of the five lists and
+splicing is `updateTree`. -/
+
+structure Par where
+  special : List Nat
+  diff1 : List Nat
+  diff2 : List Nat
+  num1 : List (Option Num)
+  num2 : List (Option Num)
+  deriving Repr, DecidableEq
+
+def Par.empty : Par := ⟨[], [], [], [], []⟩
+
+/-- the columns of a record list -/
+def Par.ofRecords (sps : List Special) : Par :=
+  ⟨sps.map (·.i), sps.map (·.d1), sps.map (·.d2), sps.map (·.n1), sps.map (·.n2)⟩
+
+/-- row `k` of the five lists (`none` = Python's IndexError on a list that is too short) -/
+def Par.row (P : Par) (k : Nat) : Option Special :=
+  match P.special[k]?, P.diff1[k]?, P.diff2[k]?, P.num1[k]?, P.num2[k]? with
+  | some i, some d1, some d2, some n1, some n2 => some ⟨i, d1, d2, n1, n2⟩
+  | _, _, _, _, _ => none
+
+/-- `xs[-1] = v` (`none`: IndexError on the empty list) -/
+def setLast {α} (xs : List α) (v : α) : Option (List α) :=
+  if xs.isEmpty then none else some (xs.dropLast ++ [v])
+
+/-- the forward `while not success` loop of l.613-639 at index `i` (exp_ord 1 or 3); outer `none` = Python raises -/
+def fwdAt (L : List String) (i o : Nat) : Option (Option (Nat × Num)) :=
+  if (o == 1 || o == 3) && decide (i + 1 < L.length) && inPow (L.getD (i + 1) "") then
+    (scanNum (L.drop (i + 1))).map some
+  else some none
+
+/-- the backward loop of l.643-675 at index `i` (exp_ord 2 or 3) -/
+def bwdAt (L : List String) (i o : Nat) : Option (Option (Nat × Num)) :=
+  if (o == 2 || o == 3) && decide (0 < i) && inPow (L.getD (i - 1) "") then
+    (scanNum (L.take i).reverse).map some
+  else some none
+
+/-- l.614-639: the five appends of the forward block -/
+def Par.pushFwd (P : Par) (i : Nat) (f : Option (Nat × Num)) : Par :=
+  match f with
+  | some (d, n) => ⟨P.special ++ [i], P.diff1 ++ [d], P.diff2 ++ [0], P.num1 ++ [some n], P.num2 ++ [none]⟩
+  | none => P
+
+/-- l.644-675: the conditional append / overwrite of the backward block -/
+def Par.pushBwd (P : Par) (i : Nat) (b : Option (Nat × Num)) : Option Par :=
+  match b with
+  | none => some P
+  | some (d, n) =>
+    let sp := if P.special.contains i then P.special else P.special ++ [i]
+    let dd : Option (List Nat × List Nat) :=
+      if P.diff2.length != sp.length then some (P.diff1 ++ [0], P.diff2 ++ [d])
+      else (setLast P.diff2 d).map (fun d2 => (P.diff1, d2))
+    let nn : Option (List (Option Num) × List (Option Num)) :=
+      if P.num2.length != sp.length then some (P.num1 ++ [none], P.num2 ++ [some n])
+      else (setLast P.num2 (some n)).map (fun n2 => (P.num1, n2))
+    match dd, nn with
+    | some (d1, d2), some (n1, n2) => some ⟨sp, d1, d2, n1, n2⟩
+    | _, _ => none
+
+/-- the body of `for i in range(len(labels))` (l.609-675) on the five lists -/
+def stepPar (L : List String) (P : Par) (i : Nat) : Option Par :=
+  let l := L.getD i ""
+  if !inExp l then some P
+  else match expOrd l with
+    | none => none
+    | some o =>
+      match fwdAt L i o, bwdAt L i o with
+      | some f, some b => (P.pushFwd i f).pushBwd i b
+      | _, _ => none
+
+def foldPar (L : List String) : List Nat → Par → Option Par
+  | [], P => some P
+  | i :: is, P =>
+    match stepPar L P i with
+    | none => none
+    | some P' => foldPar L is P'
+
+/-- the five lists after the detection loop -/
+def detectPar (L : List String) : Option Par := foldPar L (List.range L.length) Par.empty
+
+/-- `update_tree` spelled over the five parallel lists, each indexed by `try_idx` (l.681-694) -/
+def updateTreePar (L : List String) (S : List Nat) (tryIdx : Nat) (B : Basis) : Out :=
+  match detectPar L with
+  | none => .error
+  | some P =>
+    if tryIdx < P.special.length then
+      match P.row tryIdx with
+      | some sp => outOf L S B sp
+      | none => .error
+    else .none
 
 /-- number of pow-set labels: the termination measure of phase 1 of `find_additional_trees` -/
 def powCount (L : List String) : Nat := (L.filter inPow).length
